@@ -602,34 +602,107 @@ def replay_wr(clsname, rec):
     return out
 
 
-def render_check(ctx):
-    """C / Python header renderings describe the same sequence (concrete parse-back, supplementary)"""
-    import re
-    from litedram import init
-    from litedram.common import PhySettings, GeomSettings
+def _render_configs():
+    """(label, phy_settings, timing_settings, geom_settings) for every memory type the generators support"""
+    from litedram.common import GeomSettings
     from litedram.phy.model import get_sdram_phy_settings
     from litedram import modules
+    out = []
+    for memtype, clsname, f, rate in [("SDR", "MT48LC16M16", 100e6, "1:1"), ("DDR", "MT46V32M16", 100e6, "1:2"),
+                                      ("LPDDR", "MT46H32M16", 100e6, "1:2"), ("DDR2", "MT47H64M16", 133e6, "1:2"),
+                                      ("DDR3", "MT41K128M16", 100e6, "1:4"), ("DDR4", "MT40A1G8", 125e6, "1:4")]:
+        cls = getattr(modules, clsname)
+        mod = cls(f, rate)
+        ps = get_sdram_phy_settings(memtype, 16, f)
+        out.append((memtype, ps, mod.timing_settings, mod.geom_settings))
+        if memtype == "DDR4":
+            ps2 = get_sdram_phy_settings(memtype, 16, f)
+            ps2.is_clam_shell = True
+            out.append(("DDR4_clamshell", ps2, mod.timing_settings, mod.geom_settings))
+    for kind, cl, cwl, ratio, bankbits in [("LPDDR4", 6, 4, None, 3), ("LPDDR4", 20, 10, None, 3), ("LPDDR5", 6, 4, 2, 4), ("LPDDR5", 17, 9, 4, 4)]:
+        from litedram.common import PhySettings
+        ps = PhySettings(phytype="TEST" + kind, memtype=kind, databits=16, dfi_databits=32, nphases=(8 if kind == "LPDDR4" else 1),
+                         rdphase=0, wrphase=0, cl=cl, cwl=cwl, read_latency=10, write_latency=2)
+        if ratio:
+            ps.wck_ck_ratio = ratio
+        ts = O()
+        ts.fine_refresh_mode = "1x"
+        out.append(("%s_rl%d%s" % (kind, cl, "_ratio%d" % ratio if ratio else ""), ps, ts, GeomSettings(bankbits=bankbits, rowbits=15, colbits=10)))
+    return out
+
+
+def _parse_c_sequence(ch):
+    """init_sequence() body of the C header -> ordered [(address, baddress, command text, delay)]"""
+    import re
+    body = ch[ch.index("static inline void init_sequence(void)"):]
+    out = []
+    cur = {}
+    for line in body.splitlines():
+        line = line.strip()
+        m = re.match(r"sdram_dfii_pi0_address_write\((0x[0-9a-fA-F]+|\d+)\);", line)
+        if m:
+            if "a" in cur and "cmd" in cur:
+                out.append((cur["a"], cur.get("ba"), cur["cmd"], cur.get("delay", 0)))
+                cur = {}
+            cur["a"] = int(m.group(1), 0)
+            continue
+        m = re.match(r"sdram_dfii_pi0_baddress_write\((0x[0-9a-fA-F]+|\d+)\);", line)
+        if m:
+            cur["ba"] = int(m.group(1), 0)
+            continue
+        m = re.match(r"(?:command_p0|sdram_dfii_control_write)\((.*)\);", line)
+        if m:
+            cur["cmd"] = m.group(1).replace(" ", "")
+            continue
+        m = re.match(r"cdelay\((\d+)\);", line)
+        if m:
+            cur["delay"] = int(m.group(1))
+    if "a" in cur and "cmd" in cur:
+        out.append((cur["a"], cur.get("ba"), cur["cmd"], cur.get("delay", 0)))
+    return out
+
+
+def _parse_py_sequence(py):
+    import re
+    out = []
+    for m in re.finditer(r'^\s*\("(?:[^"]*)",\s*(\d+),\s*(\d+),\s*([^,]+),\s*(\d+)\),\s*$', py, re.M):
+        out.append((int(m.group(1)), int(m.group(2)), m.group(3).strip().upper().replace(" ", ""), int(m.group(4))))
+    return out
+
+
+def render_check(ctx):
+    """the C and the Python rendering describe the same sequence as the generator's tuples: both headers are produced by the real
+    emitters for every memory type (incl. LPDDR4/LPDDR5 and a clam-shell DDR4 system) and parsed back into ordered
+    (address, bank address, command, delay) lists.  Concrete parse-back per configuration, reported as such."""
+    from litedram import init
     n = 0
-    for memtype, clsname, f in [("SDR", "MT48LC16M16", 100e6), ("DDR3", "MT41K128M16", 100e6), ("DDR2", "MT47H64M16", 133e6)]:
+    for label, ps, ts, gs in _render_configs():
         t0 = time.time()
         try:
-            cls = getattr(modules, clsname)
-            rate = "1:%d" % {"SDR": 1, "DDR2": 2, "DDR3": 4}[memtype]
-            mod = cls(f, rate)
-            ps = get_sdram_phy_settings(memtype, 16, f)
-            seq, _ = init.get_sdram_phy_init_sequence(ps, mod.timing_settings)
-            py = init.get_sdram_phy_py_header(ps, mod.timing_settings)
-            ch = init.get_sdram_phy_c_header(ps, mod.timing_settings, mod.geom_settings)
-            py_vals = [int(x, 0) for x in re.findall(r"\(\"[^\"]*\",\s*(\d+|0x[0-9a-fA-F]+)", py)] or \
-                      [int(x, 0) for x in re.findall(r"^\s*\(.*?,\s*(0x[0-9a-fA-F]+|\d+),", py, re.M)]
-            c_vals = [int(x, 0) for x in re.findall(r"sdram_dfii_pi0_address_write\((0x[0-9a-fA-F]+|\d+)\)", ch)]
-            seq_vals = [e[1] for e in seq]
-            ok = all(v in [hex(x) for x in c_vals] or v in c_vals for v in seq_vals) if c_vals else False
-            ctx.oblige("render/%s:c_header_contains_every_mode_register_value_of_the_sequence" % memtype, "unsat" if ok else "unknown",
-                       time.time() - t0, detail="sequence=%s c=%s (concrete parse-back, not a solver verdict)" % (seq_vals, c_vals))
+            seq, _ = init.get_sdram_phy_init_sequence(ps, ts)
+            want = [(int(a), int(ba), str(cmd).replace(" ", ""), int(delay)) for _c, a, ba, cmd, delay in seq]
+            py = _parse_py_sequence(init.get_sdram_phy_py_header(ps, ts))
+            c = _parse_c_sequence(init.get_sdram_phy_c_header(ps, ts, gs))
+            if getattr(ps, "is_clam_shell", False):
+                # every mode-register write is emitted twice (top / bottom half with swapped address bits): compare the top copies
+                top = [e for e in c if not e[2].endswith("|DFII_COMMAND_CS_BOTTOM")]
+                c = [(a, ba, cmd.replace("|DFII_COMMAND_CS_TOP", ""), d) for a, ba, cmd, d in top]
+            problems = []
+            if py != [(a, ba, cmd.upper(), d) for a, ba, cmd, d in want]:
+                problems.append("python header differs: %r" % ([x for x in zip(want, py) if (x[0][0], x[0][1], x[0][3]) != (x[1][0], x[1][1], x[1][3])][:2] or (len(want), len(py)),))
+            if c != want:
+                problems.append("C header differs: %r" % ([x for x in zip(want, c) if x[0] != x[1]][:2] or (len(want), len(c)),))
+            q = "render/%s:c_and_python_headers_describe_the_generated_sequence" % label
+            ctx.oblige(q, "sat" if problems else "unsat", time.time() - t0,
+                       detail="%d steps; concrete parse-back of both renderings (not a solver verdict) %s" % (len(want), "; ".join(problems)))
+            if problems:
+                path = ctx.write_replay("render_" + label, "c_and_python_headers_describe_the_generated_sequence",
+                                        dict(cls=None, render=label, rec=dict(bench="render_" + label, q="render", problems=problems)))
+                ctx.violation("render_" + label, "c_and_python_headers_describe_the_generated_sequence", path)
             n += 1
         except Exception as e:
-            ctx.note("render check for %s skipped: %r" % (memtype, e))
+            import traceback
+            ctx.inconclusive.append("render check for %s failed to run: %r %s" % (label, e, traceback.format_exc()[-400:]))
     return n
 
 
@@ -637,6 +710,19 @@ BENCHES = {}
 
 
 def replay_custom(data):
+    if data.get("render"):
+        class _C:
+            inconclusive, viol = [], []
+            def oblige(self, *a, **k): pass
+            def write_replay(self, *a, **k): return data.get("path", "<file>")
+            def violation(self, label, goal, path): self.viol.append(label)
+        c = _C()
+        render_check(c)
+        if ("render_" + data["render"]) in c.viol:
+            print("VIOLATION property=C17 replay=%s" % data.get("path", "<file>"))
+            return 1
+        print("renderings agree for", data["render"], c.inconclusive)
+        return 0
     if data.get("cls") is None and str(data["rec"].get("bench", "")).startswith("LPDDR"):
         mdl = data["rec"]["model"]
         viol, detail = lp_concrete(data["rec"]["bench"], int(mdl["CL"]), int(mdl["CWL"]), Fraction(mdl.get("TCK", "1/1000000000")))
